@@ -240,7 +240,7 @@ def worker(job):
 def main(chk, tier, seed):
     chk.rule = RULE
     chk.assumptions = ["the harness loop stands for the agent thread (same calls: next_msg, _handle_message, run, pause_computations)"]
-    n = 9000 if tier == "quick" else 100000
+    n = 9000 if tier == "quick" else 500000
     common.run_chunked(chk, "c19", n, nchunks=16 if tier == "quick" else 64, timeout=3000)
     chk.inconclusive_if(chk.counters.get("messages_held", 0) < 500, "too few held messages")
     chk.inconclusive_if(chk.counters.get("posts_while_paused", 0) < 100, "too few posts while paused")
